@@ -50,6 +50,7 @@ type chain struct {
 	reqs      map[string]uint64
 	raw       map[uint64][]oracletypes.RawRequest
 	mine      map[uint64]bool
+	dsHash    map[int64]string // data source id -> file hash
 }
 
 var (
@@ -75,9 +76,13 @@ func getChain(worker int) *chain {
 		tssh.Must(w.Tx(ctx, 0, oracletypes.NewMsgCreateDataSource(name, "d", exe, sdk.NewCoins(), bandtesting.Owner.Address, bandtesting.Owner.Address, bandtesting.Owner.Address)), "create ds")
 		return int64(w.App.OracleKeeper.GetDataSourceCount(ctx))
 	}
+	c.dsHash = map[int64]string{}
 	c.dsShort = mkDS("short", []byte("abc"))
 	c.dsLong = mkDS("long", []byte(strings.Repeat("0123456789abcdef", 4)))
 	c.dsMid = mkDS("mid", []byte(strings.Repeat("x", 25)))
+	for _, id := range []int64{c.dsShort, c.dsLong, c.dsMid} {
+		c.dsHash[id] = w.App.OracleKeeper.MustGetDataSource(ctx, oracletypes.DataSourceID(id)).Filename
+	}
 	mkReq := func(name string, ids []int64, ask uint64) {
 		cd := obi.MustEncode(testdata.Wasm4Input{IDs: ids, Calldata: name})
 		tssh.Must(w.Tx(ctx, 0, oracletypes.NewMsgRequestData(4, cd, ask, 1, name, bandtesting.Coins100000000uband, bandtesting.TestDefaultPrepareGas, bandtesting.TestDefaultExecuteGas, bandtesting.FeePayer.Address, oracletypes.ENCODER_UNSPECIFIED)), "request "+name)
@@ -166,6 +171,12 @@ func (f fakeRPC) ABCIQuery(_ context.Context, path string, data cmtbytes.HexByte
 	}
 	f.r.fmu.Lock()
 	f.r.lastFail[key] = fail
+	if fail && kind == "data" {
+		var q oracletypes.QueryDataRequest
+		if err := f.r.c.w.App.AppCodec().Unmarshal(data, &q); err == nil {
+			f.r.fetchErr[q.DataHash]++
+		}
+	}
 	f.r.fmu.Unlock()
 	if fail {
 		return nil, fmt.Errorf("injected rpc failure")
@@ -253,6 +264,7 @@ func scenarioS(name string, reqNames []string, startup []string, maxTry uint64) 
 			if len(s.Panics) > 0 || s.Deadlock || s.Livelock {
 				return "aborted", nil // reported by the explorer itself
 			}
+			unrun := map[string]int{} // file hash -> raw reports filed as 255 without the executor having been asked
 			byReq := map[uint64][]*oracletypes.MsgReportData{}
 			for _, m := range r.msgs {
 				byReq[uint64(m.RequestID)] = append(byReq[uint64(m.RequestID)], m)
@@ -308,6 +320,7 @@ func scenarioS(name string, reqNames []string, startup []string, maxTry uint64) 
 						if rr.ExitCode != 255 {
 							add("unfetched-data-source-not-255", "request %s eid %d: exit code %d", n, eid, rr.ExitCode)
 						}
+						unrun[c.dsHash[int64(rq.DataSourceID)]]++
 					case a == execOK:
 						if rr.ExitCode != 0 || string(rr.Data) != "ok-"+key {
 							add("executor-result-not-carried", "request %s eid %d: (%d,%q), executor said (0,%q)", n, eid, rr.ExitCode, rr.Data, "ok-"+key)
@@ -329,6 +342,13 @@ func scenarioS(name string, reqNames []string, startup []string, maxTry uint64) 
 					add("report-rejected-by-chain", "request %s: %v", n, res.Err)
 				}
 				sig = append(sig, n+":"+strings.Join(codes, ","))
+			}
+			// "255 when the data source could not be fetched": every raw report filed as unfetched needs its own maxTry
+			// failed fetch attempts; a failure must not be shared between raw requests or remembered
+			for h, k := range unrun {
+				if r.fetchErr[h] < k*int(maxTry) {
+					add("reported-unfetched-without-having-failed-to-fetch", "%d raw reports for executable %s were filed as 255 without running, but only %d fetch attempts failed (maxTry %d)", k, h[:8], r.fetchErr[h], maxTry)
+				}
 			}
 			sort.Strings(sig)
 			return strings.Join(sig, " "), viol
